@@ -156,6 +156,25 @@ func runC11(c c11Case, o *vfutil.Obs) *vfutil.Failure {
 			n := 2 + op.N%3
 			var wg sync.WaitGroup
 			errs := make([]error, n)
+			// with the cursor evicted from the cache (what the LRU does under
+			// many keys), concurrent FetchCursor calls fill the cache from the log
+			// while the SetCursor calls store and cache new values
+			if op.Val%2 == 0 && !cacheOff {
+				l.s.cursors.cache.Remove(string(l.s.cursors.getCursorKey(id, st, p)))
+				o.Label("concurrent-fetches-on-a-cold-cache")
+				for i := 0; i < 2; i++ {
+					wg.Add(1)
+					go func(i int) {
+						defer wg.Done()
+						if i == 1 {
+							time.Sleep(300 * time.Microsecond)
+						}
+						ctx, cancel := ctxFor("", 10*time.Second)
+						l.s.api.FetchCursor(ctx, &client.FetchCursorRequest{Stream: st, Partition: p, CursorId: id})
+						cancel()
+					}(i)
+				}
+			}
 			for i := 0; i < n; i++ {
 				wg.Add(1)
 				go func(i int) {
